@@ -9,6 +9,7 @@ import (
 	"runtime/debug"
 	"strings"
 	"syscall"
+	"time"
 
 	"github.com/uber-go/gopatch/patch"
 )
@@ -124,9 +125,10 @@ func skeleton(s string) string {
 // CLIResult is the observation of one CLI process.
 type CLIResult struct {
 	Stdout, Stderr []byte
-	Exit           int  // exit status, -1 if signalled
+	Exit           int // exit status, -1 if signalled
 	Signal         string
 	CPUExceeded    bool // killed by RLIMIT_CPU
+	HarnessTimeout bool // the wall-clock guard fired: observation is inconclusive
 }
 
 // CLIOpts configures a CLI run.
@@ -163,8 +165,24 @@ func (c *Ctx) RunCLI(o CLIOpts) *CLIResult {
 	}
 	var so, se bytes.Buffer
 	cmd.Stdout, cmd.Stderr = &so, &se
-	err := cmd.Run()
-	res := &CLIResult{Stdout: so.Bytes(), Stderr: se.Bytes()}
+	cmd.SysProcAttr = &syscall.SysProcAttr{Setpgid: true}
+	// Generous wall-clock guard against a wedged child (e.g. strace stuck on a zombie): its
+	// firing makes the observation inconclusive (HarnessTimeout), never a violation. Hangs of
+	// gopatch itself are decided by RLIMIT_CPU.
+	var err error
+	timedOut := false
+	if err = cmd.Start(); err == nil {
+		done := make(chan error, 1)
+		go func() { done <- cmd.Wait() }()
+		select {
+		case err = <-done:
+		case <-time.After(5 * time.Minute):
+			timedOut = true
+			syscall.Kill(-cmd.Process.Pid, syscall.SIGKILL)
+			err = <-done
+		}
+	}
+	res := &CLIResult{Stdout: so.Bytes(), Stderr: se.Bytes(), HarnessTimeout: timedOut}
 	if err != nil {
 		if ee, ok := err.(*exec.ExitError); ok {
 			ws := ee.Sys().(syscall.WaitStatus)
@@ -187,6 +205,9 @@ func (c *Ctx) RunCLI(o CLIOpts) *CLIResult {
 
 // CrashClass classifies a CLI result as a crash (""= no crash).
 func (r *CLIResult) CrashClass() string {
+	if r.HarnessTimeout {
+		return "harness-cli-wall-clock-guard"
+	}
 	if r.CPUExceeded {
 		return "hang:cli"
 	}
